@@ -238,46 +238,66 @@ struct Ev { item: T, obs: T, kind: Kind }
 
 pub struct Hist { input: T, output: T, viol: Option<String>, tags: Vec<String>, nontrivial: bool }
 
+fn qput(size: usize) -> FOp { FOp::Put { size, instant: true, embed: true } }
+
+/// fixed first cases of stream "sched" (the corpus), then generated ones:
+///  0-2  the two finding witnesses and a commit landing between get and process
+///  3    stop() BEFORE run_worker_loop is entered, two committed queued documents waiting, worker offered steps, a second stop
+///  4    stop() before entry on an empty memory
+///  5-11 stop between every pair of worker steps (k = 0..6 worker steps before the request over two loop iterations with
+///       checkpoint_interval 1: before get, after get, after process, after complete, after checkpoint, after the 2nd get, after
+///       the 2nd process), further queued puts + commit AFTER the request, then a second stop
+const N_FIXED: usize = 12;
+
 fn run_sched(r: &mut Rng, profile: usize) -> Hist {
     let dir = tempfile::tempdir().expect("tempdir");
     let mem = Memvid::create(dir.path().join("m.mv2")).expect("create");
     let mv = Arc::new(Mutex::new(mem));
-    let iv: usize = match r.below(5) { 0 => 0, 1 => 1, 2 => 2, 3 => 3, _ => 100 };
-    // ---- foreground ops and the token plan
+    let mut iv: usize = match r.below(5) { 0 => 0, 1 => 1, 2 => 2, 3 => 3, _ => 100 };
+    let mut pre = false;
+    // ---- foreground ops and the token plan (true = W)
     let mut fops: Vec<FOp> = vec![]; let mut plan: Vec<bool> = vec![];
+    let (f, w) = (false, true);
     match profile {
-        0 => { // F-C41-1 witness: put ; worker get, process, complete ; commit
-            fops = vec![FOp::Put { size: 60, instant: true, embed: true }, FOp::Commit, FOp::Stop];
-            plan = vec![false, true, true, true, false, true, false, true, true]; }
-        1 => { // F-C41-2 witness: put, commit ; get ; drain ; process, complete
-            fops = vec![FOp::Put { size: 60, instant: true, embed: true }, FOp::Commit, FOp::Drain, FOp::Stop];
-            plan = vec![false, false, true, false, true, true, true, false, true]; }
-        2 => { // commit lands between get and process: the frame is found
-            fops = vec![FOp::Put { size: 60, instant: true, embed: true }, FOp::Commit, FOp::Put { size: 80, instant: true, embed: true }, FOp::Commit, FOp::Stop];
-            plan = vec![false, true, false, true, true, true, false, true, false, true, true, true, true, false, true, true]; }
+        0 => { fops = vec![qput(60), FOp::Commit, FOp::Stop]; plan = vec![f, w, w, w, f, w, f, w, w]; }
+        1 => { fops = vec![qput(60), FOp::Commit, FOp::Drain, FOp::Stop]; plan = vec![f, f, w, f, w, w, w, f, w]; }
+        2 => { fops = vec![qput(60), FOp::Commit, qput(80), FOp::Commit, FOp::Stop]; plan = vec![f, w, f, w, w, w, f, w, f, w, w, w, w, f, w, w]; }
+        3 => { pre = true; iv = 1; fops = vec![qput(60), FOp::Commit, qput(80), FOp::Commit, FOp::Stop]; plan = vec![f, f, w, w, w, w, f, f, w, w, w, f, w, w]; }
+        4 => { pre = true; fops = vec![FOp::Stop]; plan = vec![w, w, f, w]; }
+        5..=11 => {
+            let k = profile - 5; iv = 1;
+            fops = vec![qput(60), qput(70), FOp::Commit, FOp::Stop, qput(80), FOp::Commit, FOp::Stop];
+            plan = vec![f, f, f]; for _ in 0..k { plan.push(w); } plan.extend([f, w, w, f, f, w, w, w, f, w, w]);
+        }
         _ => {
             let nf = r.range(5, 12) as usize;
             let allow_drain = r.chance(1, 3);
+            pre = r.chance(1, 8);
             // half of the puts are followed at once by a commit (no worker step in between): their tasks cannot run early
             let mut glued: Vec<bool> = vec![];
             for i in 0..nf {
                 let prev_put = matches!(fops.last(), Some(FOp::Put { .. }));
                 if prev_put && r.chance(1, 2) { fops.push(FOp::Commit); glued.push(true); continue; }
-                fops.push(if i == 0 { FOp::Put { size: 50, instant: true, embed: true } } else { gen_fop(r, allow_drain) }); glued.push(false);
+                fops.push(if i == 0 { qput(50) } else { gen_fop(r, allow_drain) }); glued.push(false);
             }
+            // stop at a random position of the history (the foreground carries on afterwards), always again at the end
+            if r.chance(1, 2) { let at = r.range(1, fops.len() as u64) as usize; fops.insert(at, FOp::Stop); glued.insert(at, false); }
             fops.push(FOp::Stop); glued.push(false);
             let style = r.below(3);
             for (i, _) in fops.iter().enumerate() {
                 let nw = if glued[i] { 0 } else { match style { 0 => r.below(3), 1 => r.below(6), _ => if r.chance(1, 3) { r.range(3, 9) } else { 0 } } };
-                for _ in 0..nw { plan.push(true); }
-                plan.push(false);
-                if i + 1 == fops.len() { for _ in 0..r.below(6) { plan.push(true); } }
+                for _ in 0..nw { plan.push(w); }
+                plan.push(f);
+                if i + 1 == fops.len() { for _ in 0..r.below(6) { plan.push(w); } }
             }
         }
     }
+    let n_stops = fops.iter().filter(|o| matches!(o, FOp::Stop)).count();
     let gate = Arc::new(Gate { st: Mutex::new((0, false)), cv: Condvar::new(), plan });
     let log: Arc<Mutex<Vec<Ev>>> = Arc::new(Mutex::new(vec![]));
     let handle = EnrichmentWorkerHandle::new();
+    // the stop flag is input state of the loop: requested here, before run_worker_loop is entered
+    if pre { handle.stop(); }
     let wh = handle.clone_handle();
     let cfg = EnrichmentWorkerConfig { embedding_batch_size: 32, checkpoint_interval: iv, task_delay_ms: 0, max_task_time_ms: 5000 };
     let worker_done = Arc::new(AtomicBool::new(false));
@@ -313,7 +333,7 @@ fn run_sched(r: &mut Rng, profile: usize) -> Hist {
     };
     // ---- foreground
     let mut fg = Fg::new();
-    let wait_drain = r.chance(1, 2);
+    let wait_drain = n_stops == 1 && !pre && r.chance(1, 2);
     for op in &fops {
         if matches!(op, FOp::Stop) && wait_drain {
             // let the worker empty the queue before it is stopped (the plan's remaining W tokens may not suffice)
@@ -334,23 +354,43 @@ fn run_sched(r: &mut Rng, profile: usize) -> Hist {
         gate.leave();
     }
     gate.free();
-    let t_stop = Instant::now();
-    while !worker_done.load(Ordering::SeqCst) { if t_stop.elapsed() > Duration::from_secs(60) { fg.viol.push("worker-does-not-stop: run_worker_loop still running 60 s after stop()".into()); break; } std::thread::sleep(Duration::from_millis(2)); }
-    if worker_done.load(Ordering::SeqCst) { let _ = th.join(); }
+    // the loop must return by itself now.  Whether it does is decided below by COUNTING what it did after the request; the clock
+    // only bounds how long we look (a worker that keeps working is seen working; one that is merely slow is tagged inconclusive)
+    let t_stop = Instant::now(); let mut timed_out = false;
+    while !worker_done.load(Ordering::SeqCst) {
+        if t_stop.elapsed() > Duration::from_secs(if log.lock().unwrap().iter().filter(|e| !matches!(e.kind, Kind::F(..))).count() > 2000 { 0 } else { 45 }) { timed_out = true; break; }
+        std::thread::sleep(Duration::from_millis(2));
+    }
     let stats = handle.stats();
     let stopped = !handle.is_running() && worker_done.load(Ordering::SeqCst);
+    let mut evs: Vec<Ev> = std::mem::take(&mut *log.lock().unwrap());
+    if timed_out { // end the thread whatever it is doing (a second request), do not wait for ever
+        handle.stop(); let t1 = Instant::now();
+        while !worker_done.load(Ordering::SeqCst) && t1.elapsed() < Duration::from_secs(10) { handle.stop(); std::thread::sleep(Duration::from_millis(5)); }
+    }
+    if worker_done.load(Ordering::SeqCst) { let _ = th.join(); }
     // idle gets (queue empty: the model's step is the identity) are kept at most twice in a row: a worker spinning on an
     // empty queue while the foreground waits would otherwise log thousands of them
-    let mut evs: Vec<Ev> = std::mem::take(&mut *log.lock().unwrap());
     { let mut run = 0usize; let mut kept = vec![]; for e in evs.drain(..) { if matches!(e.kind, Kind::Get(None)) { run += 1; if run > 2 { continue; } } else { run = 0; } kept.push(e); } evs = kept; }
-    // ---- canonical schedule: a `get` logged after the stop was already past the stop test when stop() ran
+    // ---- canonical schedule.  The stop test is lock-free and precedes the `get` it guards: a worker blocked in front of `get`
+    // when stop() ran had already passed the test.  stop() touches nothing any critical section reads, so it commutes with
+    // everything: the request(s) logged before that `get` are slid to just after it (their snapshot is the get's: neither changes
+    // queue length / first task / frame_count / next_frame_id).  Only the FIRST worker event after the request can be such a get.
     if let Some(si) = evs.iter().position(|e| matches!(e.kind, Kind::F(FOp::Stop, _))) {
-        let gets: Vec<usize> = evs.iter().enumerate().filter(|(i, e)| *i > si && matches!(e.kind, Kind::Get(_))).map(|(i, _)| i).collect();
-        if gets.len() > 1 { fg.viol.push(format!("get-after-stop: the worker fetched {} tasks after stop()", gets.len())); }
-        if let Some(gi) = gets.first() { let g = evs.remove(*gi); evs.insert(si, g); }
+        if let Some(wi) = (si + 1..evs.len()).find(|i| !matches!(evs[*i].kind, Kind::F(..))) {
+            if matches!(evs[wi].kind, Kind::Get(_)) {
+                let snap: Vec<T> = if let T::Tup(v) = &evs[wi].obs { v[2..].to_vec() } else { vec![] };
+                let stops: Vec<usize> = (si..wi).filter(|i| matches!(evs[*i].kind, Kind::F(FOp::Stop, _))).collect();
+                let mut moved = vec![];
+                for i in stops.iter().rev() { let mut e = evs.remove(*i); if let T::Tup(v) = &mut e.obs { v.truncate(2); v.extend(snap.clone()); } moved.push(e); }
+                moved.reverse();
+                let at = wi + 1 - moved.len();
+                for (j, e) in moved.into_iter().enumerate() { evs.insert(at + j, e); }
+            }
+        }
     }
-    // a checkpoint after stop with fewer than `iv` completions since the last one is the final checkpoint (code 6)
-    { let mut since = 0usize; let mut stop_seen = false; let mut fixes = vec![];
+    // a checkpoint with fewer than `iv` completions since the last one is the final checkpoint (code 6); only legal after a stop
+    { let mut since = 0usize; let mut stop_seen = pre; let mut fixes = vec![];
       for (i, e) in evs.iter().enumerate() { match &e.kind { Kind::F(FOp::Stop, _) => stop_seen = true, Kind::Complete(_) => since += 1, Kind::Ckpt => { if since < iv { if !stop_seen { fg.viol.push("early-checkpoint: checkpoint() ran before checkpoint_interval completions and before stop".into()); } fixes.push(i); } since = 0; } _ => {} } }
       for i in fixes { if let T::Tup(v) = &mut evs[i].obs { v[0] = T::N(6); } } }
     // ---- final observation
@@ -358,6 +398,24 @@ fn run_sched(r: &mut Rng, profile: usize) -> Hist {
     let final_t = T::Tup(vec![T::L(rows), T::L(states), T::N(stats.frames_processed as u128), T::N(stats.errors as u128), T::B(stopped)]);
     // ---- property oracle on the log
     let mut viol = fg.viol.clone();
+    // (stop) counted in worker steps, not in seconds: after the request (canonical position; position 0 if it preceded loop entry)
+    // the worker may finish the iteration in progress -- process (only if it was holding a task), complete, one checkpoint --
+    // and nothing else: no get, no second process
+    let mut stop_tag = "stop_none";
+    { let stop_idx: Option<usize> = if pre { Some(0) } else { evs.iter().position(|e| matches!(e.kind, Kind::F(FOp::Stop, _))) };
+      if let Some(si) = stop_idx {
+          let mut holding_at_stop = false; let mut processed_held = false;
+          for e in &evs[..si] { match &e.kind { Kind::Get(t) => { holding_at_stop = t.is_some(); processed_held = false; } Kind::Process { .. } => processed_held = true, Kind::Complete(_) => { holding_at_stop = false; } _ => {} } }
+          let after: Vec<&Ev> = evs[si..].iter().filter(|e| !matches!(e.kind, Kind::F(..))).collect();
+          let gets = after.iter().filter(|e| matches!(e.kind, Kind::Get(_))).count();
+          let procs = after.iter().filter(|e| matches!(e.kind, Kind::Process { .. })).count();
+          let ckpts = after.iter().filter(|e| matches!(e.kind, Kind::Ckpt)).count();
+          let allowed_procs = if holding_at_stop && !processed_held { 1 } else { 0 };
+          stop_tag = if pre { "stop_before_entry" } else if !holding_at_stop { "stop_at_loop_top" } else if !processed_held { "stop_after_get" } else { "stop_after_process" };
+          if pre && !after.is_empty() { viol.push(format!("work-after-stop: stop() was requested before run_worker_loop was entered, yet the loop ran {} critical sections ({} gets, {} frames processed, {} checkpoints) instead of returning", after.len(), gets, procs, ckpts)); }
+          else if gets > 0 || procs > allowed_procs || ckpts > 1 || after.len() > 3 { viol.push(format!("work-after-stop: after stop() the worker ran {} critical sections: {} gets, {} frames processed ({} allowed: it was {}holding a task), {} checkpoints", after.len(), gets, procs, allowed_procs, if holding_at_stop { "" } else { "not " }, ckpts)); }
+          else if timed_out { stop_tag = "inconclusive_stop_timeout"; }
+      } }
     let mut counts: HashMap<u64, u64> = HashMap::new(); let mut early: Vec<u64> = vec![]; let mut gone: Vec<u64> = vec![]; let mut found: Vec<u64> = vec![];
     let mut holding: Option<u64> = None; let mut overlapped: Vec<u64> = vec![]; let mut nproc_w = 0u64; let mut nerr_w = 0u64; let mut drained_any = false;
     for e in &evs { match &e.kind {
@@ -366,7 +424,7 @@ fn run_sched(r: &mut Rng, profile: usize) -> Hist {
         Kind::Complete(_) => holding = None,
         Kind::F(FOp::Drain, n) => { if *n > 0 { drained_any = true; if let Some(t) = holding { overlapped.push(t); } } }
         _ => {} } }
-    if stats.frames_processed != nproc_w || stats.errors != nerr_w { viol.push(format!("worker-counters: stats() reports {} processed / {} errors, the closures ran {} / {}", stats.frames_processed, stats.errors, nproc_w, nerr_w)); }
+    if !timed_out && (stats.frames_processed != nproc_w || stats.errors != nerr_w) { viol.push(format!("worker-counters: stats() reports {} processed / {} errors, the closures ran {} / {}", stats.frames_processed, stats.errors, nproc_w, nerr_w)); }
     { let mut m = mv.lock().unwrap();
       let qlen = m.enrichment_queue_len();
       for p in fg.puts.iter().filter(|p| p.queued) {
@@ -385,7 +443,9 @@ fn run_sched(r: &mut Rng, profile: usize) -> Hist {
     }
     let known = ["enriched-before-commit", "drain-overlaps-worker"];
     let v = viol.iter().find(|v| !known.iter().any(|k| v.starts_with(k))).cloned().or_else(|| viol.first().cloned());
-    let mut tags: Vec<String> = vec![format!("iv{}", iv), format!("profile{}", profile.min(3))];
+    let mut tags: Vec<String> = vec![format!("iv{}", iv), if profile < N_FIXED { format!("fixed{}", profile) } else { "generated".into() }, stop_tag.into()];
+    if n_stops + (pre as usize) > 1 { tags.push("stop_twice".into()); }
+    if fops.iter().position(|o| matches!(o, FOp::Stop)).map(|i| i + 1 < fops.len()).unwrap_or(false) || (pre && fops.len() > 1) { tags.push("foreground_continues_after_stop".into()); }
     if !early.is_empty() { tags.push("task_before_commit".into()); }
     if !gone.is_empty() { tags.push("task_on_deleted_frame".into()); }
     if !found.is_empty() { tags.push("task_enriched".into()); }
@@ -394,21 +454,28 @@ fn run_sched(r: &mut Rng, profile: usize) -> Hist {
     if evs.iter().any(|e| matches!(e.kind, Kind::Ckpt)) { tags.push("worker_checkpoint".into()); }
     if wait_drain { tags.push("drained_before_stop".into()); }
     let nw = evs.iter().filter(|e| !matches!(e.kind, Kind::F(..))).count();
-    let input = T::Tup(vec![T::N(iv as u128), T::L(evs.iter().map(|e| e.item.clone()).chain(std::iter::once(T::C("SW", vec![T::N(0)]))).collect())]);
-    // the trailing SW is the loop exit (stop seen with nothing to checkpoint, or already exited): no closure runs, so it is not observed;
-    // its model observation is dropped by giving the expected list without it -- the runner truncates (see C41_run_sched)
+    // the trailing SW is the loop exit (stop seen with nothing to checkpoint, or already exited): no closure runs, so it is not
+    // observed; the runner drops the model's observation of it (Corr/C41.v C41_run)
+    let input = T::Tup(vec![T::N(iv as u128), T::B(pre), T::L(evs.iter().map(|e| e.item.clone()).chain(std::iter::once(T::C("SW", vec![T::N(0)]))).collect())]);
     let output = T::Tup(vec![T::L(evs.iter().map(|e| e.obs.clone()).collect()), final_t]);
-    Hist { input, output, viol: v, tags, nontrivial: nproc_w > 0 && nw >= 3 }
+    let queued_any = fg.puts.iter().any(|p| p.queued);
+    Hist { input, output, viol: v, tags, nontrivial: (nproc_w > 0 && nw >= 3) || (pre && queued_any) }
 }
 
 // ------------------------------------------------------------------ stream "real"
-fn run_real(r: &mut Rng) -> Hist {
+/// variant 0: start_enrichment_worker followed IMMEDIATELY by stop() (the request races with loop entry: it may land before the
+///            loop's first instruction), then queued puts + commits;  variant 1: drain, stop, more queued puts + commits, stop again;
+/// others:    free-running history, drain, stop.
+fn run_real(r: &mut Rng, variant: usize) -> Hist {
     let dir = tempfile::tempdir().expect("tempdir");
     let mem = Memvid::create(dir.path().join("m.mv2")).expect("create");
     let mv = Arc::new(Mutex::new(mem));
     let iv: usize = match r.below(4) { 0 => 1, 1 => 2, 2 => 3, _ => 100 };
     let cfg = EnrichmentWorkerConfig { embedding_batch_size: 32, checkpoint_interval: iv, task_delay_ms: 0, max_task_time_ms: 5000 };
     let h = start_enrichment_worker(Arc::clone(&mv), Some(cfg));
+    // frames_processed when the (first) stop was requested
+    let mut at_stop: Option<u64> = None;
+    if variant == 0 { h.stop(); at_stop = Some(h.stats().frames_processed); }
     let mut fg = Fg::new();
     let mut hist: Vec<T> = vec![];
     let nf = r.range(5, 11) as usize;
@@ -420,7 +487,7 @@ fn run_real(r: &mut Rng) -> Hist {
         let group = 1 + r.below(3) as usize;
         for _ in 0..group {
             if i >= nf { break; }
-            let op = if i == 0 { FOp::Put { size: 50, instant: true, embed: true } } else { gen_fop(r, false) };
+            let op = if i == 0 || (variant == 0 && (i == 2 || i == 3)) { qput(50 + i) } else { gen_fop(r, false) };
             let fr = do_fop(&mut m, &mut fg, r, &op, &|| {});
             if let Some((sop, so)) = fr.sop { hist.push(T::Tup(vec![sop, so])); }
             monitor(&m, &mut fg);
@@ -428,14 +495,30 @@ fn run_real(r: &mut Rng) -> Hist {
         }
     }
     { let mut m = mv.lock().unwrap(); let fr = do_fop(&mut m, &mut fg, r, &FOp::Commit, &|| {}); if let Some((sop, so)) = fr.sop { hist.push(T::Tup(vec![sop, so])); } }
-    let t0 = Instant::now();
-    loop { { let m = mv.lock().unwrap(); monitor(&m, &mut fg); if m.enrichment_queue_len() == 0 { break; } } if t0.elapsed() > Duration::from_secs(60) { fg.viol.push("queue-not-drained: the queue did not empty within 60 s of a silent foreground".into()); break; } std::thread::sleep(Duration::from_millis(3)); }
-    // give an in-flight complete/checkpoint the time to finish, then stop
-    h.stop();
-    let t1 = Instant::now();
-    while h.is_running() { if t1.elapsed() > Duration::from_secs(60) { fg.viol.push("worker-does-not-stop: the worker thread is still running 60 s after stop()".into()); break; } std::thread::sleep(Duration::from_millis(2)); }
+    let mut drained = false;
+    if variant != 0 {
+        let t0 = Instant::now();
+        loop { { let m = mv.lock().unwrap(); monitor(&m, &mut fg); if m.enrichment_queue_len() == 0 { drained = true; break; } } if t0.elapsed() > Duration::from_secs(60) { fg.viol.push("queue-not-drained: the queue did not empty within 60 s of a silent foreground".into()); break; } std::thread::sleep(Duration::from_millis(3)); }
+        // the last complete / checkpoint may still be in flight: frames_processed is already final once the queue is empty
+        h.stop(); at_stop = Some(h.stats().frames_processed);
+    }
+    let nq_at_stop = fg.puts.iter().filter(|p| p.queued).count() as u64;
+    if variant == 1 {
+        // the foreground carries on after the request: three more queued documents, each committed; then a second request
+        for k in 0..3 { std::thread::sleep(Duration::from_millis(r.range(1, 20)));
+            let mut m = mv.lock().unwrap();
+            for op in [qput(40 + k), FOp::Commit] { let fr = do_fop(&mut m, &mut fg, r, &op, &|| {}); if let Some((sop, so)) = fr.sop { hist.push(T::Tup(vec![sop, so])); } monitor(&m, &mut fg); } }
+        h.stop();
+    }
+    // wait for the thread to leave the loop.  What decides is the COUNT of frames processed after the request (the iteration in
+    // progress may finish: at most one); the clock only bounds how long we look, and on its own makes the case 'inconclusive'
+    let t1 = Instant::now(); let mut timed_out = false;
+    let work_after = |h: &memvid_core::EnrichmentHandle| h.stats().frames_processed.saturating_sub(at_stop.unwrap_or(0));
+    std::thread::sleep(Duration::from_millis(30));
+    while h.is_running() { if work_after(&h) > 1 || t1.elapsed() > Duration::from_secs(45) { timed_out = true; break; } std::thread::sleep(Duration::from_millis(2)); }
     let stop_ms = t1.elapsed().as_millis();
-    let stats = if h.is_running() { h.stats() } else { h.stop_and_wait() };
+    let after = work_after(&h);
+    let stats = if timed_out { let st = h.stats(); h.stop(); std::thread::sleep(Duration::from_millis(200)); if !h.is_running() { let _ = h.stop_and_wait(); } st } else { h.stop_and_wait() };
     let (rows, nq, unenriched_active, unenriched_gone, lost) = {
         let mut m = mv.lock().unwrap();
         let fr = do_fop(&mut m, &mut fg, r, &FOp::Commit, &|| {}); if let Some((sop, so)) = fr.sop { hist.push(T::Tup(vec![sop, so])); }
@@ -443,27 +526,34 @@ fn run_real(r: &mut Rng) -> Hist {
         let lost = lost_frames(&mut m, &fg);
         let (rows, _) = table(&mut m, &fg);
         let mut ua = vec![]; let mut ug = vec![];
-        for p in fg.puts.iter().filter(|p| p.queued) { if let Ok(f) = m.frame_by_id(p.id) { if f.enrichment_state != EnrichmentState::Enriched { if f.status == FrameStatus::Active { ua.push(p.id); } else { ug.push(p.id); } } } }
-        (rows, fg.puts.iter().filter(|p| p.queued).count() as u64, ua, ug, lost)
+        for p in fg.puts.iter().filter(|p| p.queued).take(nq_at_stop as usize) { if let Ok(f) = m.frame_by_id(p.id) { if f.enrichment_state != EnrichmentState::Enriched { if f.status == FrameStatus::Active { ua.push(p.id); } else { ug.push(p.id); } } } }
+        (rows, nq_at_stop, ua, ug, lost)
     };
     let mut viol = fg.viol.clone(); viol.extend(lost);
-    // exactly once (no foreground drain in this stream): one process call per queued put
-    if stats.frames_processed != nq { viol.push(format!("processed-count: {} puts were queued, the worker processed {} tasks", nq, stats.frames_processed)); }
-    // every error is a task whose frame was not there / not Active; those are exactly the un-enriched queued frames
-    let (a, g) = (unenriched_active.len() as u64, unenriched_gone.len() as u64);
-    if !(a <= stats.errors && stats.errors <= a + g) && stats.frames_processed == nq { viol.push(format!("error-count: {} errors, but {} Active and {} inactive queued frames are not Enriched", stats.errors, a, g)); }
-    if a > 0 {
-        if a <= stats.errors && stats.errors <= a + g && stats.frames_processed == nq {
-            viol.push(format!("enriched-before-commit: frames {:?} were queued by their puts and are committed, Active and still Searchable with the queue empty; the worker processed every task exactly once and reported {} \"not found\" errors: their tasks ran before the commit and were dropped", unenriched_active, stats.errors));
-        } else { viol.push(format!("queued-frame-not-enriched: frames {:?} are committed, Active, queued and Searchable with the queue empty ({} processed, {} errors, {} queued)", unenriched_active, stats.frames_processed, stats.errors, nq)); }
+    let mut stop_tag = match variant { 0 => "stop_right_after_start", 1 => "stop_twice", _ => "stop_after_drain" }.to_string();
+    if after > 1 { viol.push(format!("work-after-stop: the worker processed {} frames after stop() was requested (at most the one in progress may finish){}", after, if variant == 0 { "; the request was made right after start_enrichment_worker returned" } else { "" })); }
+    else if timed_out { stop_tag = "inconclusive_stop_timeout".into(); }
+    if drained && !timed_out {
+        // exactly once (no foreground drain in this stream): one process call per queued put
+        if stats.frames_processed != nq { viol.push(format!("processed-count: {} puts were queued, the worker processed {} tasks", nq, stats.frames_processed)); }
+        // every error is a task whose frame was not there / not Active; those are exactly the un-enriched queued frames
+        let (a, g) = (unenriched_active.len() as u64, unenriched_gone.len() as u64);
+        if !(a <= stats.errors && stats.errors <= a + g) && stats.frames_processed == nq { viol.push(format!("error-count: {} errors, but {} Active and {} inactive queued frames are not Enriched", stats.errors, a, g)); }
+        if a > 0 {
+            if a <= stats.errors && stats.errors <= a + g && stats.frames_processed == nq {
+                viol.push(format!("enriched-before-commit: frames {:?} were queued by their puts and are committed, Active and still Searchable with the queue empty; the worker processed every task exactly once and reported {} \"not found\" errors: their tasks ran before the commit and were dropped", unenriched_active, stats.errors));
+            } else { viol.push(format!("queued-frame-not-enriched: frames {:?} are committed, Active, queued and Searchable with the queue empty ({} processed, {} errors, {} queued)", unenriched_active, stats.frames_processed, stats.errors, nq)); }
+        }
     }
+    let (a, g) = (unenriched_active.len() as u64, unenriched_gone.len() as u64);
     let known = ["enriched-before-commit", "drain-overlaps-worker"];
     let v = viol.iter().find(|v| !known.iter().any(|k| v.starts_with(k))).cloned().or_else(|| viol.first().cloned());
-    let mut tags = vec![format!("iv{}", iv), format!("stop_ms_{}", if stop_ms < 10 { "lt10" } else if stop_ms < 1000 { "lt1000" } else { "ge1000" })];
-    if a > 0 { tags.push("task_before_commit".into()); }
-    if g > 0 { tags.push("task_on_deleted_frame".into()); }
+    let mut tags = vec![format!("iv{}", iv), stop_tag, format!("stop_ms_{}", if stop_ms < 100 { "lt100" } else if stop_ms < 1000 { "lt1000" } else { "ge1000" })];
+    if drained && a > 0 { tags.push("task_before_commit".into()); }
+    if drained && g > 0 { tags.push("task_on_deleted_frame".into()); }
     if stats.frames_processed > stats.errors { tags.push("task_enriched".into()); }
-    Hist { input: T::L(hist), output: T::L(rows), viol: v, tags, nontrivial: stats.frames_processed > 0 }
+    if variant == 0 { tags.push(if stats.frames_processed == 0 { "immediate_stop_nothing_processed".into() } else { "immediate_stop_one_in_flight".into() }); }
+    Hist { input: T::L(hist), output: T::L(rows), viol: v, tags, nontrivial: stats.frames_processed > 0 || variant == 0 }
 }
 
 pub fn run(seed: u64, n: usize, _tier: &str, w: &mut dyn std::io::Write) {
@@ -482,7 +572,7 @@ pub fn run(seed: u64, n: usize, _tier: &str, w: &mut dyn std::io::Write) {
                 if k >= jobs.len() { break; }
                 let (sched, i, s) = jobs[k];
                 let mut r = Rng(s);
-                let h = if sched { run_sched(&mut r, i) } else { run_real(&mut r) };
+                let h = if sched { run_sched(&mut r, i) } else { run_real(&mut r, i) };
                 *results[k].lock().unwrap() = Some(h);
             });
         }
